@@ -359,7 +359,16 @@ Fixpoint nodup_b (l : list bytes) : bool :=
 Fixpoint index_of (x : bytes) (l : list bytes) (i : nat) : option nat :=
   match l with [] => None | y :: r => if beqb x y then Some i else index_of x r (S i) end.
 
-(* each stage at most once; an executed owner precedes its user; only requested/upstream stages *)
+(* [subseq_b l m]: l is a subsequence of m *)
+Fixpoint subseq_b (l m : list bytes) : bool :=
+  match l, m with
+  | [], _ => true
+  | _ :: _, [] => false
+  | x :: l', y :: m' => if beqb x y then subseq_b l' m' else subseq_b l m'
+  end.
+
+(* each stage at most once; an executed owner precedes its user; only requested/upstream stages;
+   with --single-stage the requested stages execute in the order in which they were requested *)
 Definition spec_valid_log (w : world) (targets : list bytes) (single : bool) (log : list bytes) : bool :=
   match load_index (w_index w) (w_stages w) [] with
   | None => true
@@ -367,6 +376,7 @@ Definition spec_valid_log (w : world) (targets : list bytes) (single : bool) (lo
     let ts := all_or targets idx in
     nodup_b log &&
     forallb (fun s => mem s (if single then ts else upstream idx ts)) log &&
+    (if single then match targets with [] => true | _ => subseq_b log targets end else true) &&
     (single ||
      forallb (fun b => forallb (fun a =>
         match index_of a log 0, index_of b log 0 with
